@@ -179,7 +179,7 @@ class Prop:
 
     # ---- generation
     def gen_cases(self, rng, tier):
-        n = 3000 if tier == 'quick' else 40000
+        n = 3000 if tier == 'quick' else 20000
         out = []
         c4 = {'ext': False, 'two': False, 'nh': False, 'fams': [(E.IPV4, False), (E.IPV6, False)]}
         c2 = {'ext': False, 'two': True, 'nh': False, 'fams': [(E.IPV4, False), (E.IPV6, False)]}
